@@ -6,6 +6,18 @@ from values import (BoolV, SInt, OPQ, UNDEF, UNIT, OptV, EnumV, StructV, Closure
                     int_ite, cases_of, mkmux, TRUE, FALSE, NONE)
 
 
+def ADD(x, y):
+    return x + y
+
+
+def SUBSAT(x, y):
+    return max(x - y, 0)
+
+
+ADD.bvkind = "add"
+SUBSAT.bvkind = "subsat"
+
+
 class EntryV:
     def __init__(self, m, key):
         self.m, self.key = m, key
@@ -35,8 +47,8 @@ def call_method(I, recv, name, argexprs, scope, frame, g, hint, e):
             if recv is OPQ or a is OPQ:
                 return OPQ
             if name == "saturating_sub":
-                return int_bin(lambda x, y: max(x - y, 0), recv, a)
-            return int_bin(lambda x, y: x + y, recv, a)
+                return int_bin(SUBSAT, recv, a)
+            return int_bin(ADD, recv, a)
         if name in ("try_into",):
             return OptV(T, recv)
         if name == "unwrap":
